@@ -189,7 +189,7 @@ func main() {
 			Acts: []tmrun.Action{{K: "strp", Layout: l}, {K: "gts", M: fmt.Sprintf("g%d", k)}, {K: "inc", M: "c0"}}})
 	}
 	family.Stmts = append(family.Stmts, tmrun.Stmt{Tag: "T", Arg: tmrun.ArgNone,
-		Acts: []tmrun.Action{{K: "gts", M: "g7"}, {K: "inc", M: "c1"}}})
+		Acts: []tmrun.Action{{K: "gts", M: fmt.Sprintf("g%d", len(tmrun.Layouts))}, {K: "inc", M: "c1"}}})
 	runLen := 24
 	for zone := range tmrun.ZoneNames {
 		for _, useYear := range []bool{false, true} {
@@ -227,7 +227,10 @@ func main() {
 		for _, useYear := range []bool{false, true} {
 			for i, la := range tmrun.Layouts {
 				for j, lb := range tmrun.Layouts {
-					if i == j || (!a.Thorough() && !(i >= 3 && j >= 3) && !rng.Chance(10)) {
+					// quick: the date/time-of-day layouts 3..6 pairwise; the fractional
+					// layouts 7.. paired with each other; a tenth of the rest
+					always := (i >= 3 && j >= 3 && i < 7 && j < 7) || (i >= 7 && j >= 7)
+					if i == j || (!a.Thorough() && !always && !rng.Chance(10)) {
 						continue
 					}
 					p := tmrun.Prog{Stmts: []tmrun.Stmt{{Tag: "P", Arg: tmrun.ArgStr, Acts: []tmrun.Action{
@@ -288,7 +291,7 @@ func main() {
 	}
 	out.Extra["programs_rejected_by_compiler"] = compileErrs
 	out.Extra["reads_not_decided_by_the_oracle"] = undecided
-	out.Flush("a case is a program over the layout family (ANSIC, RFC3339, Jan _2 15:04:05, 2006-01-02, 01/02/2006, 02/01/2006, 15:04:05), settime and timestamp(), run on the real VM under one of 4 zones x syslogUseCurrentYear over 5-31 lines (valid, invalid, repeated and cross-layout values); non-trivial when some strptime succeeds and timestamp() is read", false)
+	out.Flush("a case is a program over the layout family (ANSIC, RFC3339, Jan _2 15:04:05, 2006-01-02, 01/02/2006, 02/01/2006, 15:04:05, and four with fractional seconds: .999, .000, .999999, .999999999 with zone), settime and timestamp(), run on the real VM under one of 4 zones x syslogUseCurrentYear over 5-31 lines (valid, invalid, repeated and cross-layout values); non-trivial when some strptime succeeds and timestamp() is read", false)
 }
 
 // goodFor: the value belongs to the pool of layout k.
